@@ -50,6 +50,19 @@ class MachineryError(Exception):
     """Tool failure, time-out, audit failure: exit 2, never a verdict."""
 
 
+class ImplementationFailure(Exception):
+    """The code under test could not even be set up for a case the property quantifies over (a configured node
+    missing from the parsed configuration, a constructor of the real code raising, ...).  That is a verdict about
+    the code, not a tool failure: check.py reports it as a violation with the set-up as the failing input."""
+
+    def __init__(self, key, what, replay):
+        Exception.__init__(self, what)
+        self.key, self.what, self.replay = key, what, replay
+
+    def __reduce__(self):       # survives the trip back from a pool worker
+        return (ImplementationFailure, (self.key, self.what, self.replay))
+
+
 # --------------------------------------------------------------------------
 # scratch copy of the code under test
 # --------------------------------------------------------------------------
